@@ -15,7 +15,7 @@ CLAUSES = {
     "analytic-helpers": "analytical.get_velocity1/2/4 implement tableaus of order 1, 2 (for every s), 4",
 }
 BOUNDS = {
-    "quick": "1-2 particles, stage velocities/positions/dx/dy/dt arbitrary reals (anisotropic metric, different per particle) with |U dt/dx| < 1 and start >= 3 cells inside (no clip, kill or land branch); all three schemes; get_velocity2 with symbolic s in (0, 2]",
+    "quick": "1-2 particles, stage velocities/positions/dx/dy/dt arbitrary reals (anisotropic metric, different per particle) with |U dt/dx| < 1 and start >= 3 cells inside a tall (39x87) or wide (87x39) domain with distinct lower limits (no clip, kill or land branch); all three schemes; get_velocity2 with symbolic s in (0, 2]",
     "thorough": "3 particles; anisotropic check via different dx per particle",
 }
 ASSUMES = ["interior start position and per-step displacement below one cell (the property's own precondition)",
@@ -27,7 +27,9 @@ def scenarios(tier):
     out = []
     for adv in ("EF", "RK2", "RK4"):
         for npart in ((1, 2) if tier == "quick" else (1, 2, 3)):
-            out.append(dict(name=f"tracker-{adv}-p{npart}", fn="tracker", params=dict(adv=adv, npart=npart), cost=5))
+            out.append(dict(name=f"tracker-{adv}-p{npart}", fn="tracker", params=dict(adv=adv, npart=npart, shape=("square", "tall", "wide")[npart % 3]), cost=5))
+        if tier == "quick":
+            out.append(dict(name=f"tracker-{adv}-p1-wide", fn="tracker", params=dict(adv=adv, npart=1, shape="wide"), cost=5))
     for which in (1, 2, 4):
         out.append(dict(name=f"analytical-{which}", fn="helper", params=dict(which=which), cost=2))
     return out
@@ -71,19 +73,23 @@ class _RecForce:
         return self.W.arr(u, "f"), self.W.arr(v, "f")
 
 
-def _run_tracker(W, adv, npart, values, x, y, dx, dtsec, dy=None):
+SHAPES = dict(square=(0, 40, 0, 40), tall=(1, 40, 3, 90), wide=(3, 90, 1, 40))  # grid.xmin, xmax, ymin, ymax
+
+
+def _run_tracker(W, adv, npart, values, x, y, dx, dtsec, dy=None, shape="square"):
     dy = dx if dy is None else dy
+    bx0, bx1, by0, by1 = SHAPES[shape]
     trk, st = W.load("ladim.tracker"), W.load("ladim.state")
     tk = W.load("ladim.timekeeper")
 
     class Grid:
-        xmin, xmax, ymin, ymax = 0, 40, 0, 40
+        xmin, xmax, ymin, ymax = bx0, bx1, by0, by1
 
         def metric(self, X, Y):
             return W.arr(list(dx), "f"), W.arr(list(dy), "f")
 
         def ingrid(self, X, Y):
-            return (X > 0.5) & (X < 39.5) & (Y > 0.5) & (Y < 39.5)
+            return (X > bx0 + W.frac(1, 2)) & (X < bx1 - W.frac(1, 2)) & (Y > by0 + W.frac(1, 2)) & (Y < by1 - W.frac(1, 2))
 
         def atsea(self, X, Y):
             return W.arr([True] * len(X), "b")
@@ -118,8 +124,10 @@ def _nstages(adv):
 def tracker(W, p):
     adv, npart = p["adv"], p["npart"]
     ns = _nstages(adv)
-    x = [W.real(f"x{n}", 10, 30) for n in range(npart)]
-    y = [W.real(f"y{n}", 10, 30) for n in range(npart)]
+    # anywhere at least 3 cells inside a non-square domain (the stage clip box must come from the right grid limits)
+    bx0, bx1, by0, by1 = SHAPES[p.get("shape", "square")]
+    x = [W.real(f"x{n}", bx0 + 3, bx1 - 3) for n in range(npart)]
+    y = [W.real(f"y{n}", by0 + 3, by1 - 3) for n in range(npart)]
     dx = [W.real(f"dx{n}", 1, 10000) for n in range(npart)]
     dy = [W.real(f"dy{n}", 1, 10000) for n in range(npart)]  # anisotropic metric: dy independent of dx
     dt = W.real("dt", 1, 100000)
@@ -130,7 +138,7 @@ def tracker(W, p):
             for c in "uv":
                 dd = dx[n] if c == "u" else dy[n]
                 W.assume(W.all([W.lt(U[(k, c, n)] * dt, dd), W.lt(-dd, U[(k, c, n)] * dt)]), "|U| dt / dx < 1")
-    S, F = _run_tracker(W, adv, npart, lambda k, c: [U[(k, c, n)] for n in range(npart)], x, y, dx, dt, dy)
+    S, F = _run_tracker(W, adv, npart, lambda k, c: [U[(k, c, n)] for n in range(npart)], x, y, dx, dt, dy, shape=p.get("shape", "square"))
     W.prove(len(F.calls) == ns, "linear-in-stage-velocities", dict(calls=len(F.calls), expected=ns))
     if len(F.calls) != ns:
         return (adv, "calls")
